@@ -547,7 +547,7 @@ class C13(Check):
                     check_mask(ctx, target, q, infos[0])
                 # ---- copy_from_extent
                 triggers = [known_trigger(m, q, info) for m, info in zip(tmodels, infos)]
-                if any(triggers) and (not ctx.allow_known or len({t for t in triggers if t}) > 1):
+                if False and any(triggers) and (not ctx.allow_known or len({t for t in triggers if t}) > 1):  # guards retired: findings fixed
                     res.count("excluded_by_finding")  # (one open finding at a time when they are allowed)
                     continue
                 parent = None
